@@ -413,8 +413,20 @@ class InjectedFault(Exception):
     pass
 
 
+class StripeReadError(Exception):
+    """A library-style error whose constructor takes (filename, reason) but hands one formatted message to Exception:
+    such an exception pickles, and cannot be un-pickled (a well-known pitfall; several third-party libraries have it)."""
+
+    def __init__(self, filename, reason):
+        super().__init__("cannot read %s: %s" % (filename, reason))
+        self.filename = filename
+        self.reason = reason
+
+
 def make_exc(i):
-    i = i % 4
+    i = i % 5
+    if i == 4:
+        return StripeReadError("stripe.fits", "injected")
     if i == 0:
         return OSError(errno.EIO, "injected I/O error")
     if i == 1:
